@@ -467,6 +467,60 @@ theorem absorb_cut_eq (id : Nat) (m : MS) :
     absorb id (SigG.exhausted (some id) : SigG Err) m = (.exhausted none, tick m) := by
   simp [absorb]
 
+/-- the search below a promise that came out of a thunk of a frame without alternatives and
+    without a level in the reference (the clause `true.`, the thunk of `\\+` after the nested search) -/
+theorem direct_tail {k : Nat} (ihP : TPk fl mo tmpl max prog F k) {t : Thunk} {id : Nat} {q0 : Pr} {lv : Lv} {d : Nat}
+    {m m1 : MS} {sig : SigG Err} {m' : MS} {ans0 : List Term} {r : SLD.Res}
+    (hda : dfsAlts (VM.sem F) 0 (k + 1) t ({ id := id, delayed := [] } : Pr) (lv.map Prod.fst) m = some (sig, m'))
+    (hgood : GoodA fl F (k + 1) t { id := id, delayed := [] } (lv.map Prod.fst) m)
+    (hev : evalThunk F t m = some (q0, m1)) (hid0 : id ≠ 0) (hidn : id ∉ lv.map Prod.fst)
+    (hspec : PSpecW fl mo tmpl max prog ((id, none) :: lv) d q0 m1 ans0 r) (hok : LvOK mo lv d)
+    (hst1 : StOK prog m1) (hlt : ans0.length < max) (hnv1 : m.user.nextVar ≤ m1.user.nextVar) :
+    sig = .illScoped ∨ Match mo tmpl max prog lv ans0 m m' sig r := by
+  have hlv1 : ((id, (none : Option Nat)) :: lv).map Prod.fst =
+      push ({ id := id, delayed := [] } : Pr).id (lv.map Prod.fst) := by
+    simp [push, hid0]
+  rcases after_child ihP hda hgood (by exact hev) hlv1 hspec (hok.pushNone hid0 hidn) hst1 hlt rfl with
+    hill | ⟨m2, hm, hf, _⟩ | ⟨sig1, m2, hm, hne, hres⟩
+  · exact Or.inl hill
+  · -- the empty frame: exhausted
+    right
+    cases k with
+    | zero => simp [dfsP] at hf
+    | succ k' =>
+      rw [leaf_ok' rfl rfl] at hf
+      simp only [Option.some.injEq, Prod.mk.injEq] at hf
+      obtain ⟨rfl, rfl⟩ := hf
+      rcases hm.stop with ⟨_, h2, h3⟩ | ⟨_, _, h1, _⟩ | ⟨h1, _⟩ | ⟨_, _, _, _, _, h1, _⟩
+      · exact ⟨hm.ans, Or.inl ⟨rfl, h2, h3⟩, hm.st, Nat.le_trans hnv1 hm.nvar⟩
+      · cases h1
+      · cases h1
+      · cases h1
+  · right
+    rcases hm.stop with ⟨h1, _, _⟩ | ⟨c, l, h1, h2, h3, h4⟩ | ⟨h1, h2⟩ | ⟨F', c1, c2, ex, co, h1, h2⟩
+    · exact absurd h1 hne
+    · subst h1
+      have hc : c ≠ id := by
+        rintro rfl
+        rw [lev_cons_self] at h3; cases h3
+      rw [absorb_cut_ne m2 hc] at hres
+      simp only [Prod.mk.injEq] at hres
+      obtain ⟨rfl, rfl⟩ := hres
+      rw [lev_cons_ne none lv hc] at h3
+      exact ⟨hm.ans, Or.inr (Or.inl ⟨c, l, rfl, h2, h3, h4⟩), hm.st, Nat.le_trans hnv1 hm.nvar⟩
+    · subst h1
+      rw [absorb_found] at hres
+      simp only [Prod.mk.injEq] at hres
+      obtain ⟨rfl, rfl⟩ := hres
+      exact ⟨hm.ans, Or.inr (Or.inr (Or.inl ⟨rfl, h2⟩)), hm.st, Nat.le_trans hnv1 hm.nvar⟩
+    · subst h1
+      obtain ⟨co', hco'⟩ := absorb_raised id (.exc (errT F' c1)) co m2
+      rw [hco'] at hres
+      simp only [Prod.mk.injEq] at hres
+      obtain ⟨rfl, rfl⟩ := hres
+      exact ⟨hm.ans, Or.inr (Or.inr (Or.inr ⟨F', c1, c2, ex, co', rfl, h2⟩)), hm.st, Nat.le_trans hnv1 hm.nvar⟩
+
+
 theorem td_succ {k : Nat} (ihP : TPk fl mo tmpl max prog F k) (hprog : ∀ c ∈ prog, clauseS fl c = true) :
     TDk fl mo tmpl max prog F (k + 1) := by
   intro ct id K env R q nv n d r lv m sig m' ans0 hda hgood hans hid0 hidn hcode hvars hsim hs hok hst hlt
@@ -491,48 +545,7 @@ theorem td_succ {k : Nat} (ihP : TPk fl mo tmpl max prog F k) (hprog : ∀ c ∈
     obtain ⟨hspec, hst1, hnv1⟩ := cont_run tmpl max prog hprog fuel K env m q0 m1 hcont
       (fun hfl => (hgood _ _ .here).fine hfl _ hev) ((id, none) :: lv) R q nv
       (simAt_ext hext hsim) hst n d r hs
-    have hlv1 : ((id, (none : Option Nat)) :: lv).map Prod.fst =
-        push ({ id := id, delayed := [] } : Pr).id (lv.map Prod.fst) := by
-      simp [push, hid0]
-    rcases after_child ihP hda hgood (by exact hev) hlv1 hspec (hok.pushNone hid0 hidn) hst1 hlt rfl with
-      hill | ⟨m2, hm, hf, _⟩ | ⟨sig1, m2, hm, hne, hres⟩
-    · exact Or.inl hill
-    · -- the empty frame: exhausted
-      right
-      cases k with
-      | zero => simp [dfsP] at hf
-      | succ k' =>
-        rw [leaf_ok' rfl rfl] at hf
-        simp only [Option.some.injEq, Prod.mk.injEq] at hf
-        obtain ⟨rfl, rfl⟩ := hf
-        rcases hm.stop with ⟨_, h2, h3⟩ | ⟨_, _, h1, _⟩ | ⟨h1, _⟩ | ⟨_, _, _, _, _, h1, _⟩
-        · exact ⟨hm.ans, Or.inl ⟨rfl, h2, h3⟩, hm.st, Nat.le_trans hnv1 hm.nvar⟩
-        · cases h1
-        · cases h1
-        · cases h1
-    · right
-      rcases hm.stop with ⟨h1, _, _⟩ | ⟨c, l, h1, h2, h3, h4⟩ | ⟨h1, h2⟩ | ⟨F', c1, c2, ex, co, h1, h2⟩
-      · exact absurd h1 hne
-      · subst h1
-        have hc : c ≠ id := by
-          rintro rfl
-          rw [lev_cons_self] at h3; cases h3
-        rw [absorb_cut_ne m2 hc] at hres
-        simp only [Prod.mk.injEq] at hres
-        obtain ⟨rfl, rfl⟩ := hres
-        rw [lev_cons_ne none lv hc] at h3
-        exact ⟨hm.ans, Or.inr (Or.inl ⟨c, l, rfl, h2, h3, h4⟩), hm.st, Nat.le_trans hnv1 hm.nvar⟩
-      · subst h1
-        rw [absorb_found] at hres
-        simp only [Prod.mk.injEq] at hres
-        obtain ⟨rfl, rfl⟩ := hres
-        exact ⟨hm.ans, Or.inr (Or.inr (Or.inl ⟨rfl, h2⟩)), hm.st, Nat.le_trans hnv1 hm.nvar⟩
-      · subst h1
-        obtain ⟨co', hco'⟩ := absorb_raised id (.exc (errT F' c1)) co m2
-        rw [hco'] at hres
-        simp only [Prod.mk.injEq] at hres
-        obtain ⟨rfl, rfl⟩ := hres
-        exact ⟨hm.ans, Or.inr (Or.inr (Or.inr ⟨F', c1, c2, ex, co', rfl, h2⟩)), hm.st, Nat.le_trans hnv1 hm.nvar⟩
+    exact direct_tail ihP hda hgood hev hid0 hidn hspec hok hst1 hlt hnv1
 
 theorem solveAlts_frames_cons (prog : List Term) (n d nv : Nat) (fs : List SLD.Frame) (as : List SLD.Alt)
     (rest : List SLD.Frame) (q : Term) (limit : Nat) :
